@@ -67,6 +67,18 @@ func gen(t *tl.T) {
 		{"shape_c4_person.go", "C4_PERSON_AR_LIMIT", "c4PersonARLimit"},
 		{"shape_c4_person.go", "HEAD_RADIUS_FACTOR", "c4HeadRadiusFactor"},
 		{"shape_c4_person.go", "BODY_TOP_FACTOR", "c4BodyTopFactor"},
+		{"shape_cloud.go", "CLOUD_WIDE_INNER_X", "cloudWideInnerX"},
+		{"shape_cloud.go", "CLOUD_WIDE_INNER_Y", "cloudWideInnerY"},
+		{"shape_cloud.go", "CLOUD_WIDE_INNER_WIDTH", "cloudWideInnerWidth"},
+		{"shape_cloud.go", "CLOUD_WIDE_INNER_HEIGHT", "cloudWideInnerHeight"},
+		{"shape_cloud.go", "CLOUD_TALL_INNER_X", "cloudTallInnerX"},
+		{"shape_cloud.go", "CLOUD_TALL_INNER_Y", "cloudTallInnerY"},
+		{"shape_cloud.go", "CLOUD_TALL_INNER_WIDTH", "cloudTallInnerWidth"},
+		{"shape_cloud.go", "CLOUD_TALL_INNER_HEIGHT", "cloudTallInnerHeight"},
+		{"shape_cloud.go", "CLOUD_SQUARE_INNER_X", "cloudSquareInnerX"},
+		{"shape_cloud.go", "CLOUD_SQUARE_INNER_Y", "cloudSquareInnerY"},
+		{"shape_cloud.go", "CLOUD_SQUARE_INNER_WIDTH", "cloudSquareInnerWidth"},
+		{"shape_cloud.go", "CLOUD_SQUARE_INNER_HEIGHT", "cloudSquareInnerHeight"},
 	} {
 		r := ratOf(t, t.Var("lib/shape/"+c.file, c.name))
 		t.Fact("lib/shape/%s:%s = %s", c.file, c.name, r.RatString())
